@@ -6,6 +6,7 @@ import (
 	"errors"
 	"fmt"
 	"io"
+	"io/fs"
 	"strings"
 
 	"golang.org/x/net/html"
@@ -125,6 +126,104 @@ func (p *c12Proc) PostProcess(nodes []*html.Node) error {
 	return nil
 }
 
+// cancelWriter accepts everything and cancels the context once it has received at bytes.
+type cancelWriter struct {
+	at     int
+	cancel func()
+	got    bytes.Buffer
+	done   bool
+}
+
+func (c *cancelWriter) Write(p []byte) (int, error) {
+	c.got.Write(p)
+	if !c.done && c.got.Len() >= c.at {
+		c.done = true
+		c.cancel()
+	}
+	return len(p), nil
+}
+
+// cancelFS cancels the context when the at-th file is opened.
+type cancelFS struct {
+	fs.FS
+	at     int
+	n      int
+	cancel func()
+}
+
+func (c *cancelFS) Open(name string) (fs.File, error) {
+	if c.n == c.at {
+		c.cancel()
+	}
+	c.n++
+	return c.FS.Open(name)
+}
+
+// runCancel: the context is cancelled WHILE the render runs - when the writer has received its
+// k-th byte (every k), and when the j-th file is opened (every j). Whatever the render then
+// returns, it is all or nothing: an error with 0 bytes, or nil with the complete document.
+func (c *c12Case) runCancel(ctx *core.Ctx) {
+	p := programByName(c.Prog)
+	isString := strings.HasPrefix(c.Entry, "renderstring") || c.Entry == "renderbyte" || c.Entry == "renderreader"
+	if isString && (p.HasFM || p.Layout) || p.Fails {
+		return
+	}
+	ctx.NonTrivial()
+	layoutTag := "no-layout"
+	if p.Layout {
+		layoutTag = "layout"
+	}
+	where := "cancel/" + c.Entry + "/" + layoutTag
+	var ref bytes.Buffer
+	ctx.Eval(1)
+	if err := c12Call(bg, p, c.Entry, &ref); err != nil {
+		return
+	}
+	judge := func(kind string, pos int, err error, got string) bool {
+		if err != nil && got != "" {
+			ctx.Violation("partial-output-on-error", where, "cancelled-at-"+kind, fmt.Sprintf("program %s: context cancelled at %s %d: the render returned %v but the writer had received %d bytes: %q", c.Prog, kind, pos, err, len(got), clip(got, 200)))
+			return false
+		}
+		if err == nil && got != ref.String() {
+			ctx.Violation("incomplete-output", where, "cancelled-at-"+kind, fmt.Sprintf("program %s: context cancelled at %s %d: nil error but the writer received %q, want %q", c.Prog, kind, pos, clip(got, 200), clip(ref.String(), 200)))
+			return false
+		}
+		return true
+	}
+	n := ref.Len()
+	for k := 1; k <= n; k++ {
+		if n > 2048 && k > 256 && k < n-256 && k%53 != 0 {
+			continue
+		}
+		cctx, cancel := context.WithCancel(context.Background())
+		cw := &cancelWriter{at: k, cancel: cancel}
+		ctx.Eval(1)
+		err := c12Call(cctx, p, c.Entry, cw)
+		cancel()
+		if !judge("byte", k, err, cw.got.String()) {
+			return
+		}
+	}
+	// cancellation at the j-th file access
+	count := &cancelFS{FS: CatalogFiles.FS(), at: -1, cancel: func() {}}
+	ctx.Eval(1)
+	_ = c12CallOn(bg, vuego.NewFS(count, vuego.WithComponents()), p, c.Entry, &bytes.Buffer{})
+	for j := 0; j < count.n; j++ {
+		cctx, cancel := context.WithCancel(context.Background())
+		cf := &cancelFS{FS: CatalogFiles.FS(), at: j, cancel: cancel}
+		eng := vuego.NewFS(cf, vuego.WithComponents())
+		cf.n = 0 // opens during construction (config, components) do not count
+		hw := &failWriter{limit: 1 << 30}
+		ctx.Eval(1)
+		err := c12CallOn(cctx, eng, p, c.Entry, hw)
+		cancel()
+		if !judge("file-access", j, err, hw.got.String()) {
+			return
+		}
+	}
+	ctx.Count("cancel-file-positions", count.n)
+}
+
 // runProc: a registered node processor fails at every position of the evaluated DOM in turn.
 func (c *c12Case) runProc(ctx *core.Ctx) {
 	p := programByName(c.Prog)
@@ -218,6 +317,10 @@ func c12CallOn(ctx context.Context, t vuego.Template, p *Program, entry string, 
 func (c *c12Case) Run(ctx *core.Ctx) {
 	if c.Part == "processor" {
 		c.runProc(ctx)
+		return
+	}
+	if c.Part == "cancel" {
+		c.runCancel(ctx)
 		return
 	}
 	p := programByName(c.Prog)
@@ -324,7 +427,7 @@ func init() {
 	core.Register(&core.Check{
 		ID:    "C12",
 		Level: "fault_enumeration",
-		Rule: "every catalogue program (25 succeeding, 6 failing early/late/in include/in layout) x entry point {Load+Render, RenderFile, RenderString, RenderByte, RenderReader} x fault {none, cancelled context, writer failing at EVERY byte offset 0..len(output)-1 in three styles: refusing the write and every later one, short write + error, refusing that one write only (a transient fault)}; plus, for the succeeding programs, a registered node processor that changes nothing and fails at EVERY node position of the DOM it is shown (post-processing and pre-processing), which must give an error and 0 bytes. " +
+		Rule: "every catalogue program (25 succeeding, 6 failing early/late/in include/in layout) x entry point {Load+Render, RenderFile, RenderString, RenderByte, RenderReader} x fault {none, cancelled context, writer failing at EVERY byte offset 0..len(output)-1 in three styles: refusing the write and every later one, short write + error, refusing that one write only (a transient fault)}; plus, for the succeeding programs, a registered node processor that changes nothing and fails at EVERY node position of the DOM it is shown (post-processing and pre-processing), which must give an error and 0 bytes; plus a context that is cancelled while the render runs - when the writer receives its k-th byte, for every k, and when the j-th file is opened, for every j - after which the call must still be all or nothing. " +
 			"oracle: healthy writer: error => 0 bytes received, nil => exactly the reference bytes; failing writer: non-nil error, the bytes it accepted are a prefix of the reference, and the next healthy render on the same long-lived engine returns exactly the reference bytes; cancelled context: error and 0 bytes. non-trivial = all; distinct = (program, entry point)",
 		Bounds:      map[string]string{"quick": "all offsets of all programs; for the two programs with more than 4096 bytes of output the first and last 512 offsets and every 97th in between", "thorough": "all offsets of all programs"},
 		Assumptions: []string{"writers that return n < len(p) with a nil error are out of scope"},
@@ -338,6 +441,7 @@ func init() {
 					}
 					emit(&c12Case{Prog: p.Name, Entry: e, Stride: stride})
 					emit(&c12Case{Part: "processor", Prog: p.Name, Entry: e})
+					emit(&c12Case{Part: "cancel", Prog: p.Name, Entry: e})
 				}
 			}
 		},
